@@ -9,7 +9,7 @@ JOBS = [
     dict(name='c09_snappy_emit_literal', prop='C09', entry='h_c09_emit_literal', enforce='snappy_emit_literal',
          wip=True, **SC9),
     dict(name='c09_snappy_emit_copy', prop='C09', entry='h_c09_emit_copy', enforce='snappy_emit_copy',
-         min_loop_obligations=1, wip=True, **SC9),
+         min_loop_obligations=1, timeout=150, wip=True, **SC9),
     dict(name='c09_snappy_bound', prop='C09', entry='h_c09_bound', enforce='carquet_snappy_compress_bound',
          wip=True, **SC9),
     dict(name='c09_snappy_bound_lemma', prop='C09', entry='h_c09_bound_lemma', loop_contracts=False,
